@@ -111,7 +111,7 @@ Definition run_model (t : tree) : tree :=
                  match build rcs fl desc tr with
                  | Raise _ => L [I 1%Z]
                  | Ok md =>
-                     L [I 0%Z; of_list of_key (md_keys md);
+                     L [I 0%Z; of_bool (md_safe md); of_list of_key (md_keys md);
                         of_list (fun k => of_lookup (lookup (md_keymap md) k)) probes;
                         of_list (fun k => of_lookup (lookup (adapt (md_keymap md) news) k)) news]
                  end]
